@@ -1,6 +1,7 @@
 """C15 - vxfw routes events capture-target-bubble and keeps focus and hover consistent."""
 import json
 import os
+import time
 
 import vcheck
 import vselftest
@@ -54,6 +55,27 @@ def _corrupt_consume(evs):
     return None
 
 
+def _corrupt_undrawn_target(evs):
+    """the target-phase offer to a focused widget that is not part of the drawn frame recorded as an offer to the root"""
+    reset = evs[0]
+    lay = 1
+    for e in evs[1:]:
+        if e.get("ev") == "frame":
+            lay = e["lay"]
+        if e.get("ev") == "step" and e["in"]["t"] in ("key", "custom"):
+            for o in e["offers"]:
+                if o["cls"] != e["in"]["cls"] or o["ph"] != "tgt" or o["w"] == 1:
+                    continue
+                w, absent = o["w"], False
+                while w > 0:
+                    absent = absent or reset["lays"][lay - 1][w - 1]["hid"]
+                    w = reset["parent"][w - 1]
+                if absent:
+                    o["w"] = 1
+                    return evs
+    return None
+
+
 def sig_of(rej, scn):
     why = rej.get("why")
     t = (rej.get("in") or {}).get("t", rej.get("op"))
@@ -61,6 +83,8 @@ def sig_of(rej, scn):
     ctx = []
     if t in ("key", "custom", "init") and exp.get("moved"):
         ctx.append("focus-moved-since-frame")
+    if t in ("key", "custom", "frame") and exp.get("undrawn"):
+        ctx.append("focus-not-in-frame")
     if t in ("mouse", "frame") and exp.get("overlap"):
         ctx.append("overlapping-siblings")
     if t in ("mouse", "tfin", "frame") and exp.get("tfin"):
@@ -69,7 +93,14 @@ def sig_of(rej, scn):
 
 
 def main(c):
+    t0, phase = time.time(), {}
+
+    def lap(name):
+        nonlocal t0
+        phase[name] = round(time.time() - t0, 1)
+        t0 = time.time()
     drv = c.build()
+    lap("build")
     specs = c.stage_specs("vxfw")
     c.assumptions += [
         "trusted base: fake console, vaxis input parser (bytes -> events; checked by C02/C03), TLC, encoding/json",
@@ -77,7 +108,11 @@ def main(c):
         "order between a focus-out and its focus-in, and position of notifications relative to the event's own offers, are left open",
         "focus commands in the capture/target phase come with consume (otherwise the rest of the route is not defined by the property); "
         "notification handlers return only redraw commands",
-        "widget trees keep their parent relation; layouts change geometry and z-order only; overlapping siblings have distinct z",
+        "widget trees keep their parent relation; layouts change geometry, z-order and which widgets are drawn at all (a widget "
+        "that is not drawn is absent from the frame with its subtree); overlapping siblings have distinct z",
+        "while the widget holding the focus is not part of the last drawn frame only the target-phase offer (to it, to nobody else), the "
+        "order of the phases and the stop at a consume are judged: the property does not say who its ancestors are; a frame that does "
+        "not contain the focused widget may be followed by one focus change away from it (one focus-out, one focus-in), or by none",
         "refresh is observed as a full repaint of the frame (>= cols*rows printed cells) on a static screen",
     ]
     if not c.replay:
@@ -89,8 +124,16 @@ def main(c):
                                        "frames, every overlapping sibling hit, enter on terminal focus-in) must be refuted (refuted=%s)" % (not ok))
         if ok:
             c.notes.append("negative control MC_Routing_asfound was NOT refuted")
+        ok, _ = c.model_check(specs, "MC_Routing.tla", "MC_Routing_staletarget.cfg", expect_violation=True)
+        c.cov["models"][-1]["note"] = ("negative control: a dispatch whose target is the end of the path (and not the focused widget) must "
+                                       "be refuted on the tree with an undrawn widget (refuted=%s)" % (not ok))
+        if ok:
+            c.notes.append("negative control MC_Routing_staletarget was NOT refuted")
+    lap("models")
     td = c.drive(drv, "c15", replay=c.replay)
+    lap("driver")
     rejects, _ = c.validate_traces(specs, "Routing_Trace.tla", "Routing_Trace.cfg", td)
+    lap("trace_validation")
     idx = c.load_index(td)
     c.count_distinct(idx, nontrivial=lambda s: s["nev"] > 3)
     kinds = {}
@@ -109,11 +152,19 @@ def main(c):
         c.cov["binding_selftest"] = vselftest.run(
             c, specs, "Routing_Trace.tla", "Routing_Trace.cfg", td, {r["scn"] for r in rejects},
             [("offer-order", _corrupt_order), ("focus-out-dropped", _corrupt_focus), ("leave-dropped", _corrupt_hover),
-             ("offer-after-consume", _corrupt_consume)])
+             ("offer-after-consume", _corrupt_consume), ("target-of-undrawn-focus", _corrupt_undrawn_target)])
+    lap("binding_selftest")
     c.confirm(drv, "c15", specs, "Routing_Trace.tla", "Routing_Trace.cfg", cands, sig_of)
+    lap("confirm")
+    c.cov["phase_seconds"] = phase
+    vcheck.log("C15 phases (s): %s" % phase)
     return c.finish(
         rule="route-*: every tree shape (all sibling orders) of <=4 (quick; thorough <=5) widgets x every capture mask x every focus "
              "position x every single consumer (widget, phase) or none, by key and by mouse at every widget, with and without a frame "
              "after each focus change; random: trees <=7 widgets with overlapping z-ordered siblings, random command trees (nested "
              "batches of both kinds, focus, refresh, quit), key/mouse/terminal-focus/custom events, forced frames and layout "
-             "switches; fixed corner cases; every sentinel key is itself a checked key dispatch; distinct = distinct descriptor")
+             "switches; hidden-focus: every tree shape of <=3 (quick; plus a quarter of size 4; thorough <=4 plus a quarter of size 5) x "
+             "every capture mask x every non-root widget left out of layout 0 with its subtree: each widget of that subtree focused while "
+             "undrawn (by the target, by the root bubbling, by the root capturing), keys with every single consumer and custom events "
+             "before any frame, after a frame without it, after the frame that draws it and after the frame that drops it again; "
+             "random-hidden: the random family with random undrawn sets per layout; fixed corner cases; every sentinel key is itself a checked key dispatch; distinct = distinct descriptor")
